@@ -1,0 +1,126 @@
+//go:build verif
+
+// Contracts for the gowp verifier (/verif). Comment-only file: compiled only with -tags verif and
+// contributes no code either way.
+
+package brontide
+
+//@ extern func (io.Writer) Write
+//@   ensures 0 <= result0 && result0 <= len(p)
+//@
+//@ func (c *cipherState) InitializeKey
+//@   props C11
+//@   ensures c.nonce == 0 && c.secretKey == key
+//@   site call chacha20poly1305.New: assert arg(0) == sliceof(c.secretKey) && c.secretKey == key
+//@   site store cipherState.cipher: assert value == retn(New, 0)
+//@
+//@ func (c *cipherState) InitializeKeyWithSalt
+//@   props C11
+//@   ensures c.nonce == 0 && c.secretKey == key && c.salt == salt
+//@   site call InitializeKey: assert arg(0) == c && arg(key) == key && c.salt == salt
+//@
+//@ func (c *cipherState) rotateKey
+//@   props C11
+//@   ensures c.nonce == 0
+//@   site call hkdf.New: assert arg(1) == sliceof(oldKey) && oldKey == old(c.secretKey) && arg(2) == sliceof(c.salt)
+//@   site call Read nth 0: assert arg(0) == ret(New) && arg(1) == sliceof(c.salt)
+//@   site call Read nth 1: assert arg(0) == ret(New) && arg(1) == sliceof(nextKey)
+//@   site call InitializeKey: assert arg(0) == c && arg(key) == nextKey && called(Read)
+//@
+//@ func (c *cipherState) Encrypt
+//@   props C11
+//@   requires c.nonce < 1000
+//@   ensures old(c.nonce) + 1 < 1000 ==> c.nonce == old(c.nonce) + 1 && c.secretKey == old(c.secretKey) && c.cipher == old(c.cipher)
+//@   ensures old(c.nonce) + 1 < 1000 ==> !called(rotateKey)
+//@   ensures old(c.nonce) + 1 == 1000 ==> called(rotateKey)
+//@   ensures c.nonce < 1000
+//@   site call PutUint64: assert arg(1) == subslice(sliceof(c.nonceBuffer), 4, 12) && arg(2) == c.nonce && c.nonce == old(c.nonce)
+//@   site call Seal: assert arg(0) == old(c.cipher) && arg(1) == cipherText && arg(2) == sliceof(c.nonceBuffer) &&
+//@        arg(3) == plainText && arg(4) == associatedData && called(PutUint64) && c.nonce == old(c.nonce)
+//@   site call rotateKey: assert arg(0) == c && c.nonce == 1000 && called(Seal)
+//@
+//@ func (c *cipherState) Decrypt
+//@   props C11
+//@   requires c.nonce < 1000
+//@   ensures old(c.nonce) + 1 < 1000 ==> c.nonce == old(c.nonce) + 1 && c.secretKey == old(c.secretKey) && c.cipher == old(c.cipher)
+//@   ensures old(c.nonce) + 1 < 1000 ==> !called(rotateKey)
+//@   ensures old(c.nonce) + 1 == 1000 ==> called(rotateKey)
+//@   ensures c.nonce < 1000
+//@   site call PutUint64: assert arg(1) == subslice(sliceof(c.nonceBuffer), 4, 12) && arg(2) == c.nonce && c.nonce == old(c.nonce)
+//@   site call Open: assert arg(0) == old(c.cipher) && arg(1) == plainText && arg(2) == sliceof(c.nonceBuffer) &&
+//@        arg(3) == cipherText && arg(4) == associatedData && called(PutUint64) && c.nonce == old(c.nonce)
+//@   site call rotateKey: assert arg(0) == c && c.nonce == 1000 && called(Open)
+//@
+//@ func (b *Machine) split
+//@   props C11
+//@   site call hkdf.New: assert arg(2) == sliceof(b.chainingKey)
+//@   site call Read nth 0: assert b.initiator  && arg(1) == sliceof(sendKey) && arg(0) == ret(New)
+//@   site call Read nth 1: assert b.initiator  && arg(1) == sliceof(recvKey) && arg(0) == ret(New)
+//@   site call Read nth 2: assert !b.initiator && arg(1) == sliceof(recvKey) && arg(0) == ret(New)
+//@   site call Read nth 3: assert !b.initiator && arg(1) == sliceof(sendKey) && arg(0) == ret(New)
+//@   site call InitializeKeyWithSalt nth 0: assert arg(0) == addr(b.sendCipher) && arg(salt) == b.chainingKey && arg(key) == sendKey
+//@   site call InitializeKeyWithSalt nth 1: assert arg(0) == addr(b.recvCipher) && arg(salt) == b.chainingKey && arg(key) == recvKey
+//@   site call InitializeKeyWithSalt nth 2: assert arg(0) == addr(b.recvCipher) && arg(salt) == b.chainingKey && arg(key) == recvKey
+//@   site call InitializeKeyWithSalt nth 3: assert arg(0) == addr(b.sendCipher) && arg(salt) == b.chainingKey && arg(key) == sendKey
+//@
+//@ func (b *Machine) WriteMessage
+//@   props C11
+//@   requires b.sendCipher.nonce < 999
+//@   ensures len(p) > 65535 ==> result == ErrMaxMessageLengthExceeded
+//@   ensures len(p) <= 65535 && (len(old(b.nextHeaderSend)) > 0 || len(old(b.nextBodySend)) > 0) ==> result == ErrMessageNotFlushed
+//@   site call PutUint16: assert arg(1) == sliceof(b.pktLenBuffer) && arg(2) == len(p) && len(p) <= 65535 &&
+//@        len(b.nextHeaderSend) == 0 && len(b.nextBodySend) == 0
+//@   site call Encrypt nth 0: assert arg(0) == addr(b.sendCipher) && arg(plainText) == sliceof(b.pktLenBuffer) && called(PutUint16)
+//@   site call Encrypt nth 1: assert arg(0) == addr(b.sendCipher) && arg(plainText) == p
+//@   site store Machine.nextHeaderSend: assert value == ret(Encrypt, 0)
+//@   site store Machine.nextBodySend: assert value == ret(Encrypt, 1)
+//@
+//@ func (b *Machine) Flush
+//@   props C11
+//@   let h0 = old(b.nextHeaderSend)
+//@   let b0 = old(b.nextBodySend)
+//@   let n1 = retn(Write, 0, 0)
+//@   let n2 = retn(Write, 0, 1)
+//@   let bodyWritten = len(b0) > 0 && (len(h0) == 0 || retn(Write, 1, 0) == nil)
+//@   requires len(old(b.nextHeaderSend)) <= 18 && len(old(b.nextBodySend)) <= 65535 + 16
+//@   site call Write nth 0: assert arg(1) == b.nextHeaderSend && b.nextHeaderSend == old(b.nextHeaderSend) && len(b.nextHeaderSend) > 0
+//@   site call Write nth 1: assert arg(1) == b.nextBodySend && b.nextBodySend == old(b.nextBodySend) && len(b.nextBodySend) > 0
+//@   ensures len(h0) > 0 && n1 < len(h0) ==> b.nextHeaderSend == subslice(h0, n1, len(h0))
+//@   ensures len(h0) > 0 && retn(Write, 1, 0) != nil ==> result1 != nil && result0 == 0 && b.nextBodySend == b0
+//@   ensures bodyWritten && n2 < len(b0) ==> b.nextBodySend == subslice(b0, n2, len(b0))
+//@   ensures bodyWritten ==> result0 == max(0, len(b0) - 16) - max(0, len(b0) - n2 - 16)
+//@   ensures !bodyWritten ==> result0 == 0
+//@   ensures bodyWritten && retn(Write, 1, 1) != nil ==> result1 != nil
+//@   site call releaseBuffers: assert len(b.nextHeaderSend) == 0 && len(b.nextBodySend) == 0
+//@   nowrap
+//@
+//@ func (b *Machine) ReadHeader
+//@   props C11
+//@   requires b.recvCipher.nonce < 1000
+//@   ensures result1 == nil ==> result0 == ret(Uint16) + 16 && retn(ReadFull, 1) == nil && retn(Decrypt, 1) == nil
+//@   site call ReadFull: assert arg(1) == sliceof(b.nextCipherHeader)
+//@   site call Decrypt: assert arg(0) == addr(b.recvCipher) && arg(cipherText) == sliceof(b.nextCipherHeader) && retn(ReadFull, 1) == nil
+//@   site call Uint16: assert arg(1) == retn(Decrypt, 0)
+//@
+//@ func (b *Machine) ReadBody
+//@   props C11
+//@   requires b.recvCipher.nonce < 1000
+//@   site call ReadFull: assert arg(1) == buf
+//@   site call Decrypt: assert arg(0) == addr(b.recvCipher) && arg(cipherText) == buf && retn(ReadFull, 1) == nil
+//@
+//@ func (b *Machine) RecvActOne
+//@   props C11
+//@   site call ParsePubKey: assert actOne[0] == HandshakeVersion
+//@   site return nil: assert actOne[0] == HandshakeVersion && retn(DecryptAndHash, 1) == nil
+//@
+//@ func (b *Machine) RecvActTwo
+//@   props C11
+//@   site call ParsePubKey: assert actTwo[0] == HandshakeVersion
+//@   site return nil: assert actTwo[0] == HandshakeVersion && retn(DecryptAndHash, 1) == nil
+//@
+//@ func (b *Machine) RecvActThree
+//@   props C11
+//@   site call DecryptAndHash nth 0: assert actThree[0] == HandshakeVersion
+//@   site call split: assert actThree[0] == HandshakeVersion && retn(DecryptAndHash, 1, 0) == nil && retn(DecryptAndHash, 1, 1) == nil &&
+//@        retn(ParsePubKey, 1) == nil
+//@   site return nil: assert called(split)
